@@ -3,6 +3,7 @@ import datetime, decimal, re, warnings
 from ofxtools import Types, utils
 from sx.run import PRINTABLE
 from harness import c09
+from harness.common import NOWS
 
 PID = "C11"
 REFUSE = (ValueError, TypeError, ArithmeticError)
@@ -162,7 +163,27 @@ def h_string_tokens(ctx, length, ntok):
         ctx.check("a value held after reading is written within the limit or refused", t2 is None or len(t2) <= length)
 
 
-HARNESSES = dict(string_tokens=h_string_tokens, decimal_foreign=h_decimal_foreign, decimal=h_decimal, decimal_special=h_decimal_special, decimal_text=h_decimal_text, integer=h_integer,
+def h_wire_escape(ctx, history):
+    """the end-tag-less writer: element data on the wire carries no raw '<' and no '&' that does not start an entity - also after
+    a long document (`history` distinct leaves written before)"""
+    import xml.etree.ElementTree as ET
+    from ofxtools import utils
+    from harness.c10 import xml_escape
+    if history:
+        big = ET.Element("OFX")
+        for i in range(history):
+            ET.SubElement(big, "MEMO" if i % 2 else "NAME").text = "payee %04d & co <%d>" % (i, i)
+        utils.tostring_unclosed_elements(big)
+    text = ctx.str("a", 1, NOWS) + ctx.str("b", 1, PRINTABLE) + ctx.str("c", 1, NOWS)
+    root = ET.Element("OFX")
+    ET.SubElement(root, "MEMO").text = text
+    out = utils.tostring_unclosed_elements(root)
+    ctx.observe("bytes", out)
+    want = ("<OFX><MEMO>" + xml_escape(text) + "</OFX>").encode("utf_8")
+    ctx.check("on the wire no element data contains a raw '<' or a raw '&' that does not start an entity", out == want)
+
+
+HARNESSES = dict(wire_escape=h_wire_escape, string_tokens=h_string_tokens, decimal_foreign=h_decimal_foreign, decimal=h_decimal, decimal_special=h_decimal_special, decimal_text=h_decimal_text, integer=h_integer,
                  integer_bool=h_integer_bool, bool=h_bool, oneof=h_oneof, string=h_string, write=c09.h_write)
 
 META = dict(
@@ -208,4 +229,6 @@ def instances(tier, seed):
     for kind in ("dt", "time"):
         for named in (None, 0, 2):
             mk(f"write:{kind}:name={named}", "write", dict(kind=kind, named=named), timeout_ms=30000)
+    mk("wire_escape[history=0]", "wire_escape", dict(history=0))
+    mk("wire_escape[history=400]", "wire_escape", dict(history=400 if not full else 2000))
     return out
